@@ -49,7 +49,7 @@ type Spec struct {
 // Node is one entry of the simulated file system.
 type Node struct {
 	Path   string `json:"path"`             // absolute, clean
-	Kind   string `json:"kind"`             // "f" file, "d" dir, "l" symlink
+	Kind   string `json:"kind"`             // "f" file, "d" dir, "l" symlink, "h" hard link (a second name for the file Target)
 	Data   []byte `json:"data,omitempty"`   // file content
 	Target string `json:"target,omitempty"` // symlink target
 }
